@@ -530,3 +530,105 @@ def fam_num(seed, per_type):
         for i in range(per_type):
             out.append(num_case(rng, ty, f"n{seed}_{ty}_{i}"))
     return out
+
+
+def with_cfg(line, **cfg):
+    """Same program, other configuration."""
+    parts = [p.strip() for p in line.split("|")]
+    cur = dict(kv.split("=") for kv in parts[1].split())
+    for k, v in cfg.items():
+        cur[k] = "-" if v is None else str(v)
+    parts[1] = " ".join(f"{k}={cur[k]}" for k in ("mt", "mb", "pb", "mp", "ci", "ee"))
+    return " | ".join(parts)
+
+
+def fam_bound_core(tier="quick"):
+    """F-ctl for C15: small sync/atomic programs, to be run with preemption bounds 0..6 and unbounded."""
+    big = tier != "quick"
+    L = []
+    a1 = ["ld 0 sc", "st 0 1 sc", "rmw 0 add 1 sc"]
+    a2 = ["ld 0 sc", "st 0 2 sc", "rmw 0 add 2 sc"]
+    L += exhaustive("pbA", ["A0"], [a1, a2], 2, stride=1 if big else 2)
+    L += exhaustive("pbA3", ["A0"], [a1[:2], a2[:2], ["ld 0 sc", "st 0 3 sc"]], 1)
+    m1 = ["lk 0 ; st 1 1 sc ; ul 0", "ld 1 sc"]
+    m2 = ["lk 0 ; st 1 2 sc ; ul 0", "tl 0 ; st 1 3 sc ; ul 0"]
+    L += exhaustive("pbM", ["M", "A0"], [m1, m2], 2)
+    h0 = ["rv 0", "trv 0"]
+    L += exhaustive("pbH", ["H"], [h0, ["sd 0 1", "sd 0 1 ; sd 0 2"]], 2, main_post=["drx 0"])
+    L += exhaustive("pbN", ["N", "A0"], [["nw 0", "ld 1 sc"], ["nn 0", "st 1 1 sc"]], 2)
+    return L
+
+
+def fam_ctl_core(tier="quick"):
+    """F-ctl for C19: placements of explore / stop_exploring / skip_branch."""
+    L = []
+    base = [
+        (["A0"], [["st 0 1 sc", "ld 0 sc"], ["st 0 2 sc", "ld 0 sc"]]),
+        (["M", "A0"], [["lk 0", "st 1 1 sc", "ul 0"], ["lk 0", "st 1 2 sc", "ul 0", "ld 1 sc"]]),
+        (["A0", "A0"], [["st 0 1 rlx", "ld 1 rlx"], ["st 1 1 rlx", "ld 0 rlx"]]),
+    ]
+    n = 0
+    for decls, (b0, b1) in base:
+        # control calls in the main thread around its own operations and in the child
+        for i in range(len(b0) + 1):
+            for j in range(i, len(b0) + 1):
+                main = ["sp 1"] + b0[:i] + ["sx"] + b0[i:j] + ["ex"] + b0[j:] + ["jn 1"]
+                L.append(prog_line(f"ctS{n}", decls, [main, b1])); n += 1
+        for i in range(len(b1) + 1):
+            for j in range(i, len(b1) + 1):
+                child = b1[:i] + ["sx"] + b1[i:j] + ["ex"] + b1[j:]
+                L.append(prog_line(f"ctS{n}", decls, [["sp 1"] + b0 + ["jn 1"], child])); n += 1
+        for i in range(len(b0) + 1):
+            main = ["sp 1"] + b0[:i] + ["sk"] + b0[i:] + ["jn 1"]
+            L.append(prog_line(f"ctK{n}", decls, [main, b1])); n += 1
+        for i in range(len(b1) + 1):
+            child = b1[:i] + ["sk"] + b1[i:]
+            L.append(prog_line(f"ctK{n}", decls, [["sp 1"] + b0 + ["jn 1"], child])); n += 1
+        # explicit explore: nothing is explored until explore() is called
+        for i in range(len(b0) + 1):
+            main = ["sp 1"] + b0[:i] + ["ex"] + b0[i:] + ["jn 1"]
+            L.append(prog_line(f"ctE{n}", decls, [main, b1], ee=1)); n += 1
+        L.append(prog_line(f"ctE{n}", decls, [["sp 1"] + b0 + ["jn 1"], b1], ee=1)); n += 1
+        # misuse: explore while exploring, stop twice
+        L.append(prog_line(f"ctX{n}", decls, [["sp 1", "ex"] + b0 + ["jn 1"], b1])); n += 1
+        L.append(prog_line(f"ctX{n}", decls, [["sp 1", "sx", "sx"] + b0 + ["jn 1"], b1])); n += 1
+    return L
+
+
+def strip_controls(line):
+    parts = [p.strip() for p in line.split("|")]
+    out = parts[:3]
+    for b in parts[3:]:
+        ops = [o.strip() for o in b.split(";") if o.strip() not in ("ex", "sx", "sk")]
+        out.append(" ; ".join(ops))
+    return with_cfg(" | ".join(out), ee=0)
+
+
+def fam_crash_core(tier="quick"):
+    """F-crash (C06): a user panic at every position of every thread of small
+    programs (holding locks, between operations, first/last), each followed by the
+    same program without the panic so that 'a later run starts clean' is exercised."""
+    big = tier != "quick"
+    base = []
+    base += exhaustive("crA", ["A0"], [["st 0 1 sc", "ld 0 sc"], ["st 0 2 sc", "ld 0 sc"]], 2, stride=2)
+    base += exhaustive("crM", ["M", "A0"], [["lk 0 ; st 1 1 sc ; ul 0"], ["lk 0 ; st 1 2 sc ; ul 0", "tl 0 ; st 1 3 sc ; ul 0"]], 1)
+    base += exhaustive("crR", ["R", "A0"], [["wr 0 ; st 1 1 sc ; uwr 0"], ["rd 0 ; ld 1 sc ; urd 0"]], 1)
+    base += exhaustive("crH", ["H"], [["rv 0"], ["sd 0 1"]], 1, main_post=["drx 0"])
+    base += exhaustive("crC", ["M", "C", "A0"], [["lk 0 ; wt 1 0 ; ul 0"], ["lk 0 ; st 2 1 sc ; ul 0 ; n1 1"]], 1)
+    base += exhaustive("crN", ["N"], [["nw 0"], ["nn 0"]], 1)
+    if not big:
+        base = base[::2]
+    L = []
+    n = 0
+    for b in base:
+        parts = [p.strip() for p in b.split("|")]
+        bodies = [[o.strip() for o in x.split(";") if o.strip()] for x in parts[3:]]
+        for t, body in enumerate(bodies):
+            for pos in range(len(body) + 1):
+                nb = [list(x) for x in bodies]
+                nb[t] = body[:pos] + ["pn"] + body[pos:]
+                L.append(" | ".join([f"crP{n}", parts[1], parts[2]] + [" ; ".join(x) for x in nb]))
+                n += 1
+        L.append(" | ".join([f"crOK{n}"] + parts[1:]))
+        n += 1
+    return L
